@@ -1,8 +1,9 @@
 import VlsModel.Drv.Common
-/- Line-protocol models serving property C17 (none yet). -/
+import VlsModel.Drv.Hmac
+/- Line-protocol models serving property C17. -/
 namespace VlsModel.Drv.C17
 open VlsModel.Drv
 
-def models : List (String × Model) := []
+def models : List (String × Model) := [ ("hmac", Hmac.model) ]
 
 end VlsModel.Drv.C17
